@@ -207,6 +207,17 @@ package headers
 //@   ensures [C17.refused,C08.marked-invalid] result == nil && pk && !known ==> !old(markedInvalid(repo, hashOf(header)))
 //@   ensures [C08.too-deep] result == nil && pk && !known ==> old(forall(j, 0, len(repo.branches), holderAt(repo.branches, header.PrevBlock, j) ==> !tooDeep(repo, repo.branches[j], findH(repo.branches[j], header.PrevBlock), header.PrevBlock)))
 //@   ensures [C08.refusal-frame] result != nil && !errFrom(result, (*Repository).sendBranchUpdate) ==> nochange()
+// Lemmas: what the verdict table says about the entry state is established by the checks that precede the mutation.
+// Each is proved once, just before the branch is extended or created; the returns after the mutation are then first
+// tried from the lemmas alone (a small query), and from the whole path only if that does not succeed.
+//@   lemma [C08.lemma-accepting] before (*Branch).Add, NewBranch: vb && wv && pk && !known
+//@   lemma [C03.lemma-split,C08.lemma-split] before (*Branch).Add, NewBranch: !old(exists(j, 0, len(repo.branches), holderAt(repo.branches, header.PrevBlock, j) && splitRefused(repo, hashOf(header), heightVia(repo.branches, header.PrevBlock, j))))
+//@   lemma [C02.lemma-daa-defined,C08.lemma-daa-defined] before (*Branch).Add, NewBranch: !old(exists(j, 0, len(repo.branches), holderAt(repo.branches, header.PrevBlock, j) && !splitRefused(repo, hashOf(header), heightVia(repo.branches, header.PrevBlock, j)) && needsDAA(repo, heightVia(repo.branches, header.PrevBlock, j)) && !daaDefined(*repo.branches[j], heightVia(repo.branches, header.PrevBlock, j))))
+//@   lemma [C02.lemma-daa-bits,C08.lemma-daa-bits] before (*Branch).Add, NewBranch: !old(exists(j, 0, len(repo.branches), holderAt(repo.branches, header.PrevBlock, j) && !splitRefused(repo, hashOf(header), heightVia(repo.branches, header.PrevBlock, j)) && needsDAA(repo, heightVia(repo.branches, header.PrevBlock, j)) && daaDefined(*repo.branches[j], heightVia(repo.branches, header.PrevBlock, j)) && bitsOf(daa(*repo.branches[j], heightVia(repo.branches, header.PrevBlock, j)), bitcoin.MaxBits) != header.Bits))
+//@   lemma [C02.lemma-accept-daa] before (*Branch).Add, NewBranch: old(forall(j, 0, len(repo.branches), holderAt(repo.branches, header.PrevBlock, j) && needsDAA(repo, heightVia(repo.branches, header.PrevBlock, j)) ==> daaDefined(*repo.branches[j], heightVia(repo.branches, header.PrevBlock, j)) && bitsOf(daa(*repo.branches[j], heightVia(repo.branches, header.PrevBlock, j)), bitcoin.MaxBits) == header.Bits))
+//@   lemma [C03.lemma-accept-split] before (*Branch).Add, NewBranch: old(forall(j, 0, len(repo.branches), holderAt(repo.branches, header.PrevBlock, j) ==> !splitRefused(repo, hashOf(header), heightVia(repo.branches, header.PrevBlock, j))))
+//@   lemma [C17.lemma-not-marked,C08.lemma-not-marked] before (*Branch).Add, NewBranch: !old(markedInvalid(repo, hashOf(header)))
+//@   lemma [C08.lemma-depth] before (*Branch).Add, NewBranch: old(forall(j, 0, len(repo.branches), holderAt(repo.branches, header.PrevBlock, j) ==> !tooDeep(repo, repo.branches[j], findH(repo.branches[j], header.PrevBlock), header.PrevBlock)))
 //@   modifies all
 //@   loop 1
 //@     invariant (-1 <= rangeindex && rangeindex < len(repo.splits)) || (len(repo.splits) == 0 && rangeindex == -1)
